@@ -1,8 +1,8 @@
 #!/verif/.venv/bin/python
 # Replay of a solver counterexample against the unmodified code (no shims).
-# property=C15 kernel=seq label=k3:plain_idle_only_if_off_detuning_zero
+# property=C15 kernel=drift label=k4:modify_compensates_drift
 import sys
 sys.path[:0] = ['/repo' + "/pulser-core", '/repo' + "/pulser-simulation", "/verif"]
 from symx.replay import replay
-sys.exit(replay(check='checks.c15', kernel='seq', shape={'cfg': {'lim': 'R', 'ctrl': ['B']}, 'program': [['enable', 2.0, 1.0, -1.0], ['eom_pulse', 0.0], ['delay'], ['modify', 1.0, 0.0, 0.0], ['eom_pulse', 0.5], ['disable']], 'custom_buffer': None},
-                assignment={'d1/k': 2, 'd2/k': 2, 'd4/k': 2, 'buf#1.start': 0, 'buf#1.end': 6, 'buf#2.start': 0, 'buf#2.end': 7, 'buf#3.start': 0, 'buf#3.end': 0, 'buf#4.start': 0, 'buf#4.end': 1}, label='k3:plain_idle_only_if_off_detuning_zero'))
+sys.exit(replay(check='checks.c15', kernel='drift', shape={'cfg': {'lim': 'R', 'ctrl': ['B']}, 'program': [['enable', 2.0, 0.0, -1.0], ['modify', 1.0, 0.0, 3.0], ['eom_pulse', 0.0], ['disable']], 'custom_buffer': None, 'kmax': 12},
+                assignment={'d2/k': 2, 'buf#1.start': 0, 'buf#1.end': 13, 'buf#2.start': 0, 'buf#2.end': 13}, label='k4:modify_compensates_drift'))
